@@ -1855,10 +1855,12 @@ class Process:
     def terminal(self):
         tty_nr = int(self._parse_stat_file()['ttynr'])
         tmap = _psposix.get_terminal_map()
-        try:
-            return tmap[tty_nr]
-        except KeyError:
-            return None
+        if tty_nr not in tmap and tty_nr != 0:
+            # The terminal (e.g. a new /dev/pts/N) was created after
+            # the map was cached: rebuild it. 0 means "no terminal".
+            _psposix.get_terminal_map.cache_clear()
+            tmap = _psposix.get_terminal_map()
+        return tmap.get(tty_nr)
 
     # May not be available on old kernels.
     if os.path.exists(f"/proc/{os.getpid()}/io"):
